@@ -47,13 +47,18 @@ ASSUMPTIONS = [
   "for a connection that never completed the handshake no ConnectionDown can be raised (no dpid); 'disconnected' is judged instead",
   "messages queued after shutdown() or close() of an I/O worker are outside the property and are not generated",
   "IOWorker.shutdown() on an already empty buffer never shuts the socket down; this is labelled, not judged (the property is about bytes)",
+  "a connecting worker's connection is noticed by _try_connect's recv(1, MSG_PEEK): EAGAIN or peer bytes mean connected; a refused "
+  "connection is only generated without peer bytes, i.e. noticed by _do_send (a failed connect is not a per-send outcome)",
 ]
 EXHAUSTIVE_SCOPE = {
   "quick": "both sides: 5^4 scripts {all, half, 0, EAGAIN, EPIPE} x 3 messages (ctl: every size sequence over {8, 5000}; sw: 4 size "
            "sequences over {8, 9000}: all small, all big, alternating) x 4 op placements, all connections writable in every round (ctl: plus "
            "a fifth placement in which only one of the two connections is writable per round; sw: x 3 API mixes send/send_fast/mixed x "
-           "shutdown yes/no), second connection always present",
-  "thorough": "as quick with 5^5 scripts x 4 messages",
+           "shutdown yes/no), second connection always present"
+           "; connecting workers: 5^3 scripts x {0,1,2} sends before the connection is noticed x 4 connect-handler send sets x 4 ways "
+           "the first round notices the connection (writable / readable+writable / readable only / writable with unread peer bytes) "
+           "x send|send_fast afterwards, plus refused connections",
+  "thorough": "as quick with 5^5 scripts x 4 messages (connecting workers: 5^4 scripts)",
 }
 
 MAX_MSGS = 6
@@ -259,16 +264,44 @@ def run_ctl(case, out, interleaver=None):
 # --------------------------------------------------------------------------- switch side
 
 def run_sw(case, out):
-  scripts = case["workers"]
-  nw = len(scripts)
-  rig = SP.SwitchRig(scripts)
+  specs = [w if isinstance(w, dict) else {"script": w} for w in case["workers"]]
+  nw = len(specs)
+  rig = SP.SwitchRig(specs)
   allmask = (1 << nw) - 1
   exp = [bytearray() for _ in range(nw)]
   broke = [None] * nw
   shut = [None] * nw        # buffer length when shutdown() was called
   user_closed = [False] * nw
   nsent = 0
+  nhandler = [0]
   raised = False
+  handler_violations = []
+
+  def on_connect(i):
+    """The connect handler of worker i (runs inside IOWorker._try_connect, i.e. inside _do_send/_do_recv of
+    the loop round that notices the connection): queues the messages the case prescribes."""
+    s, w = rig.socks[i], rig.workers[i]
+    out.label("sw-connected-with-queued-bytes" if w.send_buf else "sw-connected-with-empty-buffer")
+    for size, fast in specs[i].get("hsends") or []:
+      if shut[i] is not None or user_closed[i] or w.closed or nhandler[0] >= 2:
+        break
+      data = SP.message(100 + nhandler[0], max(8, int(size)))
+      nhandler[0] += 1
+      if s.backpressure and s.total < len(exp[i]) and not s.fatal:
+        out.nontrivial = True
+        out.label("sw-send-while-unflushed")
+      out.label("sw-connect-handler-sends")
+      exp[i] += data
+      try:
+        (w.send_fast if fast else w.send)(data)
+      except Exception as e:
+        if exc_is_from_harness(e) and not isinstance(e, TypeError):
+          raise HarnessError("connect handler failed inside the harness: %r" % (e,)) from e
+        handler_violations.append({"key": exc_key(e, clause="send-raises", side="sw", broke_at="send_fast" if fast else "send"),
+                                   "msg": "%s(%d bytes) inside the connect handler raised %r" % ("send_fast" if fast else "send", size, e)})
+        break
+  rig.on_connect = on_connect
+
   try:
     def conservation(kind):
       for i in range(nw):
@@ -290,6 +323,8 @@ def run_sw(case, out):
         data = SP.message(nsent, size)
         nsent += 1
         s, w = rig.socks[i], rig.workers[i]
+        if w._connecting:
+          out.label("sw-send-while-connecting")
         if s.backpressure and s.total < len(exp[i]) and not s.fatal and not w.closed:
           out.nontrivial = True
           out.label("sw-send-while-unflushed")
@@ -314,8 +349,17 @@ def run_sw(case, out):
         conservation(api)
       elif kind == "loop":
         wmask = op[1] & allmask
+        rmask = op[2] & allmask if len(op) > 2 else allmask
         asked = [rig.asked_to_write(i) for i in range(nw)]
-        rig.round(wmask)
+        before = list(rig.connects)
+        was_connecting = [w._connecting for w in rig.workers]
+        pending_in = [bool(s.inbox) for s in rig.socks]
+        rig.round(wmask, rmask)
+        for i in range(nw):
+          if rig.connects[i] > before[i]:
+            out.label("sw-connect-noticed-by-recv" if pending_in[i] and (rmask >> i) & 1 else "sw-connect-noticed-by-send")
+          elif was_connecting[i] and not rig.workers[i]._connecting and rig.socks[i].connect_error:
+            out.label("sw-connect-refused")
         if any(asked[i] and not (wmask >> i) & 1 for i in range(nw)):
           out.label("sw-not-writable-round")
         conservation("loop")
@@ -336,7 +380,7 @@ def run_sw(case, out):
         raise HarnessError("unknown sw op %r" % (op,))
 
     if not raised:
-      budget = 3 * (sum(len(s or []) for s in scripts) + nsent) + 30
+      budget = 3 * (sum(len(sp.get("script") or []) for sp in specs) + nsent) + 30
       while budget > 0 and not rig.idle():
         rig.round(allmask)
         conservation("loop")
@@ -344,6 +388,9 @@ def run_sw(case, out):
   finally:
     rig.teardown()
 
+  if rig.handler_errors:
+    raise rig.handler_errors[0]
+  out.violations.extend(handler_violations)
   if nw > 1:
     out.label("sw-two-workers")
   if rig.dead:
@@ -474,6 +521,40 @@ def _enum_sw(tier):
                    "ops": b(list(sizes), apis, shutdown)}
 
 
+def _enum_sw_connect(tier):
+  """Workers that are registered while their connection is still being established (what PersistentIOWorker /
+  BackoffWorker, i.e. the software switch's own connection, do): sends before the connection is noticed, a
+  connect handler that queues further messages, the connection noticed by _do_send or by _do_recv."""
+  calls = 3 if tier == "quick" else 4
+  presets = [[], [8], [9000, 8]]
+  hsets = [[], [[8, 0]], [[8, 0], [9000, 0]], [[8, 1]]]
+  firsts = [(False, ["loop", 3, 0]), (True, ["loop", 3, 3]), (True, ["loop", 0, 3]), (True, ["loop", 3, 0])]
+
+  def ops_for(pre, first, postfast):
+    ops = [["send", 0, z, 0] for z in pre]
+    ops.append(["send", 1, 9000, 0])
+    ops.append(list(first))
+    ops.extend([["loop", 3], ["loop", 3]])
+    ops.append(["send", 0, 8, postfast])
+    ops.extend([["loop", 3] for _ in range(calls + 2)])
+    return ops
+
+  for script in itertools.product(OUT5, repeat=calls):
+    for pre in presets:
+      for hs in hsets:
+        for peer, first in firsts:
+          for postfast in (0, 1):
+            yield {"side": "sw",
+                   "workers": [{"script": list(script), "connecting": True, "hsends": [list(h) for h in hs], "peer": peer},
+                               ["half"]],
+                   "ops": ops_for(pre, first, postfast)}
+  for pre in presets:
+    for hs in hsets[:2]:
+      yield {"side": "sw",
+             "workers": [{"script": [], "connecting": True, "hsends": [list(h) for h in hs], "refuse": True}, ["half"]],
+             "ops": ops_for(pre, ["loop", 3, 0], 0)}
+
+
 # --------------------------------------------------------------------------- Hypothesis
 #
 # A case is decoded constructively from one byte string, three bytes per choice (one cheap draw; composite strategies with a
@@ -543,7 +624,16 @@ def _decode_ctl(genome, maxlen):
 def _decode_sw(genome, maxlen):
   g = _Genome(genome)
   nw = 1 if g.take(3) == 0 else 2
-  workers = [_g_script(g, maxlen) for _ in range(nw)]
+  workers = []
+  for _ in range(nw):
+    script = _g_script(g, maxlen)
+    mode = g.take(5)                 # 0, 3, 4: an established connection; 1, 2: still connecting
+    if mode in (1, 2):
+      hs = [[_g_size(g), int(g.take(3) == 1)] for _ in range(g.take(3))]
+      peer, refuse = bool(g.take(2)), g.take(12) == 1
+      workers.append({"script": script, "connecting": True, "hsends": hs, "peer": peer and not refuse, "refuse": refuse})
+    else:
+      workers.append(script)
   allmask = (1 << nw) - 1
   fastmode = [0, 1, 2, 0][g.take(4)]                # never / always / mixed
 
@@ -551,7 +641,8 @@ def _decode_sw(genome, maxlen):
     r = []
     for _ in range(k):
       w = g.take(2 * (allmask + 1))
-      r.append(["loop", allmask if w > allmask else allmask - w])
+      rm = g.take(2 * (allmask + 1))
+      r.append(["loop", allmask if w > allmask else allmask - w, allmask if rm > allmask else allmask - rm])
     return r
 
   nsend = 1 + g.take(MAX_MSGS)
@@ -591,6 +682,7 @@ def plan(tier):
   return [
     Enum("ctl-grid", lambda: _enum_ctl(tier), shards=16),
     Enum("sw-grid", lambda: _enum_sw(tier), shards=16),
+    Enum("sw-connect-grid", lambda: _enum_sw_connect(tier), shards=16),
     Hyp("ctl-scripts", lambda: _ctl_case(tier), examples=8000 if q else 300000, shards=16),
     Hyp("sw-scripts", lambda: _sw_case(tier), examples=8000 if q else 300000, shards=16),
   ]
